@@ -172,7 +172,7 @@ func deadHelpers(name string, f *ast.File, b *Batch) []ev.Violation {
 	if !tracked {
 		return nil
 	}
-	decls := map[key]*ast.FuncDecl{}
+	decls := map[key][]*ast.FuncDecl{} // several init() functions may share a file (one per variables block)
 	for _, d := range f.Decls {
 		fd, ok := d.(*ast.FuncDecl)
 		if !ok {
@@ -188,7 +188,7 @@ func deadHelpers(name string, f *ast.File, b *Batch) []ev.Violation {
 				k.recv = id.Name
 			}
 		}
-		decls[k] = fd
+		decls[k] = append(decls[k], fd)
 	}
 	reach := map[key]bool{}
 	var visit func(k key)
@@ -196,26 +196,28 @@ func deadHelpers(name string, f *ast.File, b *Batch) []ev.Violation {
 		if reach[k] {
 			return
 		}
-		fd, ok := decls[k]
+		fds, ok := decls[k]
 		if !ok {
 			return
 		}
 		reach[k] = true
-		ast.Inspect(fd, func(n ast.Node) bool {
-			call, ok := n.(*ast.CallExpr)
-			if !ok {
-				return true
-			}
-			switch fn := call.Fun.(type) {
-			case *ast.Ident:
-				visit(key{"", fn.Name})
-			case *ast.SelectorExpr:
-				if id, ok := fn.X.(*ast.Ident); ok && id.Name == "c" {
-					visit(key{k.recv, fn.Sel.Name})
+		for _, fd := range fds {
+			ast.Inspect(fd, func(n ast.Node) bool {
+				call, ok := n.(*ast.CallExpr)
+				if !ok {
+					return true
 				}
-			}
-			return true
-		})
+				switch fn := call.Fun.(type) {
+				case *ast.Ident:
+					visit(key{"", fn.Name})
+				case *ast.SelectorExpr:
+					if id, ok := fn.X.(*ast.Ident); ok && id.Name == "c" {
+						visit(key{k.recv, fn.Sel.Name})
+					}
+				}
+				return true
+			})
+		}
 	}
 	for k := range decls {
 		if api[k] || k.name == "init" {
